@@ -128,8 +128,8 @@ int main()
     std::vector<char> pbuf(PBUF);
     while(std::getline(std::cin, line)) {
         auto f = split(line, ' ');
-        if(f.size() >= 6 && (f[0] == "pp" || f[0] == "pm")) {
-            bool msg = f[0] == "pm";
+        if(f.size() >= 6 && (f[0] == "pp" || f[0] == "pm" || f[0] == "xp" || f[0] == "xm")) {
+            bool msg = f[0][1] == 'm';
             rtosc_print_options o;
             o.linelength = atoi(f[1].c_str());
             o.floating_point_precision = atoi(f[2].c_str());
